@@ -152,13 +152,34 @@ class _Unser(object):
         return hash(self.s)
 
 
-def _mk(c):
-    """JSON context -> a fresh Python context"""
+class _D(dict):
+    """a dictionary that is not exactly `dict` (as lena.context.Context, OrderedDict, defaultdict are)"""
+
+
+def _mk(c, o=0, depth=0):
+    """JSON context -> a fresh Python context.  `o` chooses the insertion order of the keys at every level (0: sorted,
+    1: reverse sorted, 2: sorted and rotated by one) — equal dictionaries in different orders must behave alike; about
+    every second dictionary is made an instance of a subclass of dict."""
     if isinstance(c, dict):
-        return {k: _mk(v) for k, v in c.items()}
+        ks = sorted(c)
+        if o == 1:
+            ks.reverse()
+        elif o == 2:
+            ks = ks[1:] + ks[:1]
+        d = _D() if (len(ks) + depth) % 2 == 1 else {}
+        for k in ks:
+            d[k] = _mk(c[k], o, depth + 1)
+        return d
     if isinstance(c, list):
         return _Unser(c[1])
     return c
+
+
+def _order_of(case, i):
+    """insertion order used for the i-th context of a groupby case"""
+    if "orders" in case:
+        return case["orders"][i]
+    return i % 3 if "ctxset" in case else 0
 
 
 def _unmk(c):
@@ -167,6 +188,16 @@ def _unmk(c):
     if isinstance(c, _Unser):
         return ["obj", c.s]
     return c
+
+
+class _Custom(Exception):
+    """a user-defined exception class"""
+
+
+def raise_(cls):
+    def f(v):
+        raise cls("leaf")
+    return f
 
 
 def _fn_table():
@@ -193,6 +224,22 @@ def _fn_table():
         "pos": lambda v: _data(v) > 0,
         "inv": lambda v: 1 // _data(v) > 0,
         "has_ctx": lambda v: bool(_ctx(v)),
+        # other exception classes: raise_on_error=False must absorb every Exception
+        "raise_attr": lambda v: v.no_such_attribute,
+        "raise_val": lambda v: int("x") > 0,
+        "raise_rt": raise_(RuntimeError),
+        "raise_assert": raise_(AssertionError),
+        "raise_custom": raise_(_Custom),
+        "raise_key": lambda v: {}["missing"],
+        "raise_os": raise_(OSError),
+        "raise_stop": raise_(StopIteration),
+        # results that are no bools: selected means true
+        "five": lambda v: 5,
+        "zero": lambda v: 0,
+        "empty": lambda v: "",
+        "xstr": lambda v: "x",
+        "none": lambda v: None,
+        "data": lambda v: _data(v),
     }
 
 
@@ -204,6 +251,10 @@ def _pred_table():
         "isdict": lambda sc: isinstance(sc, dict),
         "pos": lambda sc: sc > 0,
         "eq1": lambda sc: sc == 1,
+        "ident": lambda sc: sc,
+        "raise_attr": lambda sc: sc.no_such_attribute,
+        "raise_custom": raise_(_Custom),
+        "raise_stop": raise_(StopIteration),
     }
 
 
@@ -263,7 +314,7 @@ def _value(v):
         d = (1, 2)
     if v["c"] is None:
         return d
-    return (d, _mk(v["c"]))
+    return (d, _mk(v["c"], v.get("o", 0)))
 
 
 def _unvalue(val):
@@ -284,7 +335,10 @@ def _out(f, *a):
         return {"e": exc_name(e)}
     if r is True or r is False:
         return r
-    return {"nonbool": repr(r)}
+    try:
+        return bool(r)          # "selected" = the result is true (Filter, And, Or, Not, RunIf use it that way)
+    except Exception as e:  # noqa: BLE001
+        return {"e": exc_name(e)}
 
 
 def _drain(thunk):
@@ -299,20 +353,27 @@ def _drain(thunk):
 
 
 # ---------------------------------------------------------------------------------------------
-# named context sets
+# named context sets.  Keys: "a" and "ab" (one key is a string prefix of the other), "b" in the sampled scopes.
+
+K1, K2, K3 = "a", "ab", "b"
+
 
 @functools.lru_cache(maxsize=None)
 def _ctxset(name):
     """a named, fixed list of contexts (cached: never mutate the result, copy the contexts before use)"""
     if name == "ab2":
-        sub = [dict((k, v) for k, v in zip("ab", vs) if v is not None)
+        sub = [dict((k, v) for k, v in zip((K1, K2), vs) if v is not None)
                for vs in itertools.product([None, 1, 2, {}], repeat=2)]
         vals = [None, 1, 2] + sub
-        return [dict((k, _mk(v)) for k, v in zip("ab", vs) if v is not None)
+        return [dict((k, v) for k, v in zip((K1, K2), vs) if v is not None)
                 for vs in itertools.product(vals, repeat=2)]
     if name == "ab2s":
         # a spread sample of ab2 (overlap scope)
         return _ctxset("ab2")[::9]
+    if name == "falsy":
+        # present but false values against absent ones, and type-strictness, at both keys
+        vals = ["absent", 0, False, None, "", {}, 1, True, "1"]
+        return [dict((k, v) for k, v in zip((K1, K2), vs) if v != "absent") for vs in itertools.product(vals, repeat=2)]
     raise ValueError(name)
 
 
@@ -326,18 +387,18 @@ def _contexts(case):
 _U = ["obj", "U"]
 _VALUES = [
     {"d": 3, "c": None},
+    {"d": 0, "c": {K1: {K2: 1}}},
     {"d": "s", "c": None},
+    {"d": True, "c": {K1: K2}, "o": 1},
     {"d": {"tuple": True}, "c": None},
-    {"d": 0, "c": {"a": {"b": 1}}},
-    {"d": True, "c": {"a": "b"}},
     {"d": 1, "c": {}},
-    {"d": None, "c": {"a": 1, "b": {"a": {}}}},
-    {"d": "x", "c": {"b": 5}},
-    {"d": -2, "c": {"a": {"b": {"a": 0}}, "b": "a"}},
+    {"d": None, "c": {K1: 1, K2: {K1: {}}}, "o": 1},
+    {"d": "x", "c": {K2: 5}},
+    {"d": -2, "c": {K1: {K2: {K1: 0}}, K2: K1}, "o": 2},
     # present but falsy sub-contexts, an object that is no JSON value
-    {"d": 2, "c": {"a": {}, "b": 0}},
-    {"d": 4, "c": {"a": {"b": None}, "b": ""}},
-    {"d": 5, "c": {"a": {"b": _U}}},
+    {"d": 2, "c": {K1: {}, K2: 0}},
+    {"d": 4, "c": {K1: {K2: None}, K2: ""}, "o": 1},
+    {"d": 5, "c": {K1: {K2: _U}}},
 ]
 
 
@@ -353,14 +414,20 @@ def _F(f):
     return {"t": "fn", "f": f}
 
 
-_LEAVES4 = [_S("a.b"), _C("int"), _F("true"), _F("pos")]
-_LEAVES9 = [_S("a"), _S("a.b"), _S("a.b.1"), _C("int"), _C("str"), _F("true"), _F("false"), _F("inv"), _F("raise_lke")]
+_LEAVES4 = [_S("a.ab"), _C("int"), _F("true"), _F("pos")]
+_LEAVES9 = [_S("a"), _S("a.ab"), _S("a.ab.1"), _C("int"), _C("str"), _F("true"), _F("false"), _F("inv"), _F("raise_lke")]
+# leaves raising other exception classes, and leaves whose result is no bool
+_LEAVES_EXC = [_F(n) for n in ("raise_attr", "raise_val", "raise_rt", "raise_assert", "raise_custom", "raise_key", "raise_os",
+                               "raise_stop")]
+_LEAVES_VAL = [_F(n) for n in ("five", "zero", "empty", "xstr", "none", "data")]
+_FNS = ["true", "false", "raise_zde", "raise_lke", "pos", "inv", "has_ctx", "raise_attr", "raise_val", "raise_rt",
+        "raise_assert", "raise_custom", "raise_key", "raise_os", "raise_stop", "five", "zero", "empty", "xstr", "none", "data"]
 
-_KEY_FORMS = ["a", "a.b", "b", "", "a.b.a", "b.a", ["a"], ["a", "b"], [], "a..b", "c",
-              {"dict": ["a"], "tail": "stop"}, {"dict": ["a"], "tail": {"key": "b"}}, {"dict": ["a", "b"], "tail": "stop"},
+_KEY_FORMS = ["a", "a.ab", "ab", "", "a.ab.a", "ab.a", ["a"], ["a", "ab"], [], "a..ab", "c",
+              {"dict": ["a"], "tail": "stop"}, {"dict": ["a"], "tail": {"key": "ab"}}, {"dict": ["a", "ab"], "tail": "stop"},
               {"dict": [], "tail": "stop"}, {"dict": ["a"], "tail": "multi"}, {"dict": [], "tail": "multi"},
               {"dict": ["a"], "tail": {"key": None}}, ["a", 5]]
-_PREDS = ["true", "false", "raise_zde", "isdict", "pos", "eq1"]
+_PREDS = ["true", "false", "raise_zde", "isdict", "pos", "eq1", "ident", "raise_attr", "raise_custom", "raise_stop"]
 
 
 def _level(items, with_not=True):
@@ -380,7 +447,7 @@ def _level(items, with_not=True):
     return out
 
 
-def _rand_ctx(rng, keys, depth, leaves=(1, 2, None, True, "b", 0, "1")):
+def _rand_ctx(rng, keys, depth, leaves=(1, 2, None, True, "ab", 0, "1")):
     d = {}
     for k in keys:
         r = rng.random()
@@ -394,7 +461,7 @@ def _rand_ctx(rng, keys, depth, leaves=(1, 2, None, True, "b", 0, "1")):
 
 
 def _rand_selctx(rng):
-    key = rng.choice(_KEY_FORMS + ["a", "a.b", "b", ["b", "a"]])
+    key = rng.choice(_KEY_FORMS + ["a", "a.ab", "ab", ["ab", "a"]])
     return {"t": "selctx", "key": key, "pred": rng.choice(_PREDS), "roe": rng.random() < 0.5}
 
 
@@ -403,11 +470,11 @@ def _rand_spec(rng, depth):
     if depth <= 0 or r < 0.3:
         k = rng.random()
         if k < 0.3:
-            return _S(rng.choice(["a", "b", "a.b", "a.b.1", "b.a", "a.b.a", "", "a.", "c", "a.b.U", "a.None"]))
+            return _S(rng.choice(["a", "ab", "a.ab", "a.ab.1", "ab.a", "a.ab.a", "", "a.", "c", "a.ab.U", "a.None", "b", "a.a"]))
         if k < 0.5:
             return _C(rng.choice(list(_CLS)))
         if k < 0.9:
-            return _F(rng.choice(["true", "false", "raise_zde", "raise_lke", "pos", "inv", "has_ctx"]))
+            return _F(rng.choice(_FNS))
         if k < 0.97:
             return _rand_selctx(rng)
         return {"t": "bad"}
@@ -428,14 +495,20 @@ def _rand_spec(rng, depth):
 def _rand_values(rng, n_extra=3, lo=1, hi=None):
     vals = list(_VALUES)
     for _ in range(n_extra):
-        d = rng.choice([0, 1, 2, -1, True, False, None, "s", {"tuple": True}])
-        c = None if rng.random() < 0.2 else _rand_ctx(rng, "ab", 3, leaves=(1, 2, None, True, "b", 0, "1", "", _U))
-        vals.append({"d": d, "c": c})
+        d = rng.choice([0, 1, 2, -1, True, False, None, "s", "", {"tuple": True}])
+        c = None if rng.random() < 0.2 else _rand_ctx(rng, (K1, K2), 3, leaves=(1, 2, None, True, "ab", 0, "1", "", _U))
+        vals.append({"d": d, "c": c, "o": rng.randrange(3)})
     rng.shuffle(vals)
     return vals[:rng.randint(lo, hi or len(vals))]
 
 
-_PATHS_AB2 = ["a", "b", "a.a", "a.b", "b.a", "b.b"]
+def _rot(vals, i):
+    """the fixed values, rotated: an exception on an early value must not hide the later ones in every case"""
+    i %= len(vals)
+    return vals[i:] + vals[:i]
+
+
+_PATHS_AB2 = ["a", "ab", "a.a", "a.ab", "ab.a", "ab.ab"]
 
 
 def _keysets_ab2():
@@ -459,8 +532,11 @@ def _keysets_ab2_overlap():
             yield g, m
 
 
+_RKEYS = (K1, K2, K3)
+
+
 def _rand_keyset(rng):
-    keys = "abc"
+    keys = _RKEYS
     paths = []
     for _ in range(rng.choice([0, 1, 1, 2, 2, 3, 4])):
         if paths and rng.random() < 0.6:
@@ -493,7 +569,7 @@ def _rand_keyset(rng):
         g.append("")
         m.append("")
     if rng.random() < 0.03:
-        (g if rng.random() < 0.5 else m).append(rng.choice(["a..b", ".a", "a."]))
+        (g if rng.random() < 0.5 else m).append(rng.choice(["a..ab", ".a", "a."]))
     if rng.random() < 0.08 and g:
         m.append(rng.choice(g))      # overlap: outside the partition oracle, compared with model and specification
     rng.shuffle(g)
@@ -502,6 +578,8 @@ def _rand_keyset(rng):
     def form(l):
         if len(l) == 1 and rng.random() < 0.5:
             return l[0]
+        if rng.random() < 0.15:
+            return {"list": l}
         return l
     g, m = form(g), form(m)
     if rng.random() < 0.02:
@@ -533,31 +611,48 @@ def _round_robin(gens):
         gens = alive
 
 
-def _gen_select_exhaustive(ctx):
+def _gen_select_exhaustive(ctx, rng):
     lvl1_4 = _LEAVES4 + _level(_LEAVES4)
-    specs = list(_LEAVES9) + _level(_LEAVES9) + _level(lvl1_4)
+    deep = _level(lvl1_4)
+    if ctx.tier == "quick":
+        deep = rng.sample(deep, len(deep) // 2)      # the thorough tier runs all of them
+    specs = list(_LEAVES9) + _level(_LEAVES9) + deep
     seen = set()
-    for s in specs:
+    for i, s in enumerate(specs):
         k = jdump(s)
         if k in seen:
             continue
         seen.add(k)
+        vals = _rot(_VALUES, i)
         for roe in (True, False):
-            yield {"op": "select", "spec": s, "roe": roe, "top": "selector", "values": _VALUES}
-        yield {"op": "select", "spec": s, "roe": True, "top": "filter", "values": _VALUES}
+            yield {"op": "select", "spec": s, "roe": roe, "top": "selector", "values": vals}
+        yield {"op": "select", "spec": s, "roe": True, "top": "filter", "values": vals}
 
 
 def _gen_select_special(ctx):
+    # every exception class and every kind of result, bare, in containers, under Not, with both settings
+    i = 0
+    for leaf in _LEAVES_EXC + _LEAVES_VAL:
+        for s in [leaf, {"t": "list", "l": [leaf]}, {"t": "tuple", "l": [_C("int"), leaf]}, {"t": "list", "l": [_F("false"), leaf]},
+                  {"t": "not", "s": leaf, "roe": False}, {"t": "not", "s": leaf, "roe": True},
+                  {"t": "sel", "s": leaf, "roe": False}, {"t": "tuple", "l": [{"t": "sel", "s": leaf, "roe": True}]},
+                  {"t": "and", "l": [leaf], "roe": False}, {"t": "or", "l": [leaf, _F("true")], "roe": True}]:
+            i += 1
+            for roe in (True, False):
+                yield {"op": "select", "spec": s, "roe": roe, "top": "selector", "values": _rot(_VALUES, i)[:6]}
+            yield {"op": "select", "spec": s, "roe": True, "top": "filter", "values": _rot(_VALUES, i)[:6]}
     # SelectContext on every key form, directly and inside other selectors
     for key in _KEY_FORMS:
         for pred in _PREDS:
             for roe in (True, False):
+                i += 1
                 s = {"t": "selctx", "key": key, "pred": pred, "roe": roe}
-                yield {"op": "select", "spec": s, "roe": True, "top": "filter", "values": _VALUES}
-                yield {"op": "select", "spec": {"t": "list", "l": [s, _F("false")]}, "roe": not roe,
-                       "top": "selector", "values": _VALUES}
-                yield {"op": "select", "spec": {"t": "not", "s": s, "roe": not roe}, "roe": roe,
-                       "top": "filter", "values": _VALUES}
+                yield {"op": "select", "spec": s, "roe": True, "top": "filter", "values": _rot(_VALUES, i)}
+                if pred in ("true", "raise_zde", "eq1", "ident"):
+                    yield {"op": "select", "spec": {"t": "list", "l": [s, _F("false")]}, "roe": not roe,
+                           "top": "selector", "values": _rot(_VALUES, i)}
+                    yield {"op": "select", "spec": {"t": "not", "s": s, "roe": not roe}, "roe": roe,
+                           "top": "filter", "values": _rot(_VALUES, i)}
     for s in [{"t": "bad"}, {"t": "list", "l": [_F("true"), {"t": "bad"}]}, {"t": "not", "s": {"t": "bad"}, "roe": True},
               {"t": "tuple", "l": [{"t": "list", "l": [{"t": "bad"}]}]}]:
         for top in ("selector", "filter"):
@@ -588,36 +683,42 @@ def _gen_select_random(ctx, rng, n):
     for _ in range(n):
         top = "filter" if rng.random() < 0.3 else "selector"
         spec = _rand_selctx(rng) if top == "filter" and rng.random() < 0.15 else _rand_spec(rng, 3)
-        yield {"op": "select", "spec": spec, "roe": rng.random() < 0.5, "top": top, "values": _rand_values(rng, hi=12)}
+        yield {"op": "select", "spec": spec, "roe": rng.random() < 0.5, "top": top, "values": _rand_values(rng, hi=8)}
 
 
 def _gen_filterseq(ctx, rng, n):
-    for a in _LEAVES9:
-        for b in _LEAVES9:
-            yield {"op": "filterseq", "a": a, "b": b, "values": _VALUES}
+    for i, a in enumerate(_LEAVES9 + [_F("raise_stop"), _F("five")]):
+        for b in _LEAVES9 + [_F("raise_stop"), _F("zero")]:
+            yield {"op": "filterseq", "a": a, "b": b, "values": _rot(_VALUES, i)}
     for _ in range(n):
-        yield {"op": "filterseq", "a": _rand_spec(rng, 2), "b": _rand_spec(rng, 2), "values": _rand_values(rng, hi=10)}
+        yield {"op": "filterseq", "a": _rand_spec(rng, 2), "b": _rand_spec(rng, 2), "values": _rand_values(rng, hi=8)}
 
 
 def _gen_runif(ctx, rng, n):
-    sels = _LEAVES9 + [{"t": "list", "l": [_C("int"), _S("a.b")]}, {"t": "not", "s": _F("inv"), "roe": False},
-                      {"t": "selctx", "key": "a.b", "pred": "eq1", "roe": True}, {"t": "bad"}]
-    for s in sels:
+    sels = _LEAVES9 + [{"t": "list", "l": [_C("int"), _S("a.ab")]}, {"t": "not", "s": _F("inv"), "roe": False},
+                      {"t": "selctx", "key": "a.ab", "pred": "eq1", "roe": True}, {"t": "bad"}, _F("raise_stop"), _F("data")]
+    for i, s in enumerate(sels):
         for seq in _SEQS:
-            yield {"op": "runif", "spec": s, "seq": seq, "values": _VALUES}
+            yield {"op": "runif", "spec": s, "seq": seq, "values": _rot(_VALUES, i)}
     for _ in range(n):
-        yield {"op": "runif", "spec": _rand_spec(rng, 2), "seq": rng.choice(_SEQS), "values": _rand_values(rng, hi=10)}
+        yield {"op": "runif", "spec": _rand_spec(rng, 2), "seq": rng.choice(_SEQS), "values": _rand_values(rng, hi=8)}
 
 
-def _gen_groupby_exhaustive(ctx):
-    for g, m in _keysets_ab2():
+def _gen_groupby_exhaustive(ctx, rng):
+    sets = list(_keysets_ab2())
+    for g, m in sets:
         yield {"op": "groupby", "group_by": g, "merge": m, "ctxset": "ab2"}
+    # false values against absent ones and type-strictness at selected paths
+    if ctx.tier == "quick":
+        sets = rng.sample(sets, 300)
+    for g, m in sets:
+        yield {"op": "groupby", "group_by": g, "merge": m, "ctxset": "falsy"}
 
 
 def _gen_groupby_overlap(ctx, rng):
     sets = list(_keysets_ab2_overlap())
     if ctx.tier == "quick":
-        sets = rng.sample(sets, 900)
+        sets = rng.sample(sets, 800)
     for g, m in sets:
         yield {"op": "groupby", "group_by": g, "merge": m, "ctxset": "ab2s"}
 
@@ -625,24 +726,29 @@ def _gen_groupby_overlap(ctx, rng):
 def _gen_groupby_special(ctx):
     # argument forms, defaults, duplicates, improper keys, overlaps, callables, aliases, unserialisable objects
     some_ctx = list(_ctxset("ab2")[::7])
+    orders = [i % 3 for i in range(len(some_ctx) + 1)]
     nt = {"notiter": True}
-    for g, m in [("", ""), ("a", ""), ("", "a"), ("a.b", ""), ("", "a.b"), (["a", "a"], ""), ("", ["a", "a"]),
-                 ([""], ["a", "a.b"]), (["", "a.b"], ["a", "a"]), ("a..b", ""), ("", ".a"), ("a.", ""),
+    for g, m in [("", ""), ("a", ""), ("", "a"), ("a.ab", ""), ("", "a.ab"), (["a", "a"], ""), ("", ["a", "a"]),
+                 ([""], ["a", "a.ab"]), (["", "a.ab"], ["a", "a"]), ("a..ab", ""), ("", ".a"), ("a.", ""),
                  ("a", "a"), ("", ["a", ""]), (["", "a"], ["a"]), (["a"], ["", "a"]), ([], []), ([], [""]), ([""], []),
-                 (["", "a.b"], ["a"]), (["a"], ["", "a.b"]), (["", "a.b.a"], ["a.b"]), (["", "a.b"], ["a", "b"]),
-                 (nt, ""), ("", nt), (nt, nt), (nt, "a"), (["", "a"], nt), (nt, ["a..b"]), ("a..b", nt)]:
+                 (["", "a.ab"], ["a"]), (["a"], ["", "a.ab"]), (["", "a.ab.a"], ["a.ab"]), (["", "a.ab"], ["a", "ab"]),
+                 (nt, ""), ("", nt), (nt, nt), (nt, "a"), (["", "a"], nt), (nt, ["a..ab"]), ("a..ab", nt)]:
         for via, end in (("fill", "reset"), ("update", "clear")):
-            yield {"op": "groupby", "group_by": g, "merge": m, "contexts": some_ctx + [None], "via": via, "end": end}
-    # every combination of the spellings of "nothing", "the root", and keys — string, tuple, list, empty containers
-    forms = ["", [], {"list": []}, [""], {"list": [""]}, "a", ["a"], {"list": ["a"]}, ["", "a"], ["a", "b"], "a.b",
-             ["", "a.b"], {"list": ["", "b"]}]
-    vals = [{"a": 1}, {"a": 2}, {"a": 1, "b": 1}, {}, None, {"a": {"b": 1}}, {"a": {"b": 2}}, {"b": 1}, {"a": 1}]
+            yield {"op": "groupby", "group_by": g, "merge": m, "contexts": some_ctx + [None], "orders": orders, "via": via,
+                   "end": end}
+    # every combination of the spellings of "nothing", "the root", and keys — string, tuple, list, empty containers;
+    # the same dictionary in two insertion orders; a key that is a string prefix of another
+    forms = ["", [], {"list": []}, [""], {"list": [""]}, "a", ["a"], {"list": ["a"]}, ["", "a"], ["a", "ab"], "a.ab",
+             ["", "a.ab"], {"list": ["", "ab"]}]
+    vals = [{"a": 1}, {"a": 2}, {"a": 1, "ab": 1}, {}, None, {"a": {"ab": 1, "a": 2}}, {"a": {"ab": 2}}, {"ab": 1}, {"a": 1},
+            {"ab": 1, "a": 1}, {"a": {"a": 2, "ab": 1}}, {"ab": 2}]
+    vorders = [0, 0, 0, 0, 0, 0, 0, 0, 1, 1, 1, 2]
     for g in forms:
         for m in forms:
-            yield {"op": "groupby", "group_by": g, "merge": m, "contexts": vals}
-    objs = [{"a": 1, "b": _U}, {"a": _U}, {"a": {"b": _U, "a": 1}}, {"a": {"a": 1}, "b": {"b": _U}}, {"a": 1}, {"b": 2},
-            {"a": {"b": 1, "a": _U}}, None]
-    for g, m in [("a", ""), ("", "a"), ("", "b"), ("a.a", ""), ("", "a.b"), (["", "a.b"], ["a"]), ("", ""), ("b", ""),
+            yield {"op": "groupby", "group_by": g, "merge": m, "contexts": vals, "orders": vorders}
+    objs = [{"a": 1, "ab": _U}, {"a": _U}, {"a": {"ab": _U, "a": 1}}, {"a": {"a": 1}, "ab": {"ab": _U}}, {"a": 1}, {"ab": 2},
+            {"a": {"ab": 1, "a": _U}}, None]
+    for g, m in [("a", ""), ("", "a"), ("", "ab"), ("a.a", ""), ("", "a.ab"), (["", "a.ab"], ["a"]), ("", ""), ("ab", ""),
                  (["", "a"], ["a"])]:
         yield {"op": "groupby", "group_by": g, "merge": m, "contexts": objs}
 
@@ -650,10 +756,13 @@ def _gen_groupby_special(ctx):
 def _gen_groupby_random(ctx, rng, n):
     for _ in range(n):
         g, m = _rand_keyset(rng)
-        k = rng.randint(2, 40)
-        leaves = (1, 2, True, "1", None, _U) if rng.random() < 0.2 else (1, 2, True, "1", None)
-        cs = [None if rng.random() < 0.03 else _rand_ctx(rng, "abc", 3, leaves=leaves) for _ in range(k)]
-        c = {"op": "groupby", "group_by": g, "merge": m, "contexts": cs}
+        k = rng.choice([2, 3, 4, 6, 8, 12, 16, 30])
+        leaves = (1, 2, True, "1", None, 0, "", _U) if rng.random() < 0.2 else (1, 2, True, "1", None, 0, "")
+        cs = [None if rng.random() < 0.03 else _rand_ctx(rng, _RKEYS, 3, leaves=leaves) for _ in range(k)]
+        # the same logical context once more (it will be built with another insertion order)
+        for _ in range(rng.choice([0, 1, 2])):
+            cs.append(rng.choice(cs))
+        c = {"op": "groupby", "group_by": g, "merge": m, "contexts": cs, "orders": [rng.randrange(3) for _ in cs]}
         if rng.random() < 0.1:
             c["via"], c["end"] = "update", "clear"
         yield c
@@ -677,8 +786,9 @@ def _gen_old(ctx, rng, n):
 
 
 def _gen_small(ctx):
-    strings = ["", "a", "b", "a.b", "a.b.1", "a.1", "a.", ".a", "a..b", "c", "a.b.c", "a.None", "a.True", "a.U", "b.a", "a.b.a"]
-    leaves = [None, 1, True, "b", _U, {}, {"b": 1}, {"b": {"a": 1}}, {"a": "1", "b": None}, {"b": _U}]
+    strings = ["", "a", "ab", "a.ab", "a.ab.1", "a.1", "a.", ".a", "a..ab", "c", "a.ab.c", "a.None", "a.True", "a.U", "ab.a",
+               "a.ab.a", "a.a", "b", "a.b"]
+    leaves = [None, 1, True, "ab", _U, {}, {"ab": 1}, {"ab": {"a": 1}}, {"a": "1", "ab": None}, {"ab": _U}, "a", "abc"]
     ctxs = []
     for va in leaves + ["absent"]:
         for vb in leaves + ["absent"]:
@@ -686,14 +796,14 @@ def _gen_small(ctx):
             if va != "absent":
                 c["a"] = va
             if vb != "absent":
-                c["b"] = vb
+                c["ab"] = vb
             ctxs.append(c)
-    for c in ctxs[:120]:
+    for i, c in enumerate(ctxs):
         for s in strings:
-            yield {"op": "contains", "ctx": c, "s": s}
-    for s in ["", "a", "a.b", "a..b", ".a", "a.", ".", "a.b.c", "abc", ".."]:
+            yield {"op": "contains", "ctx": c, "s": s, "o": i % 3}
+    for s in ["", "a", "a.ab", "a..ab", ".a", "a.", ".", "a.ab.c", "abc", ".."]:
         yield {"op": "splitkey", "s": s}
-    words = [[], ["a"], ["b"], ["a", "b"], ["a", "a"], ["a", "b", "c"], ["b", "a"]]
+    words = [[], ["a"], ["ab"], ["a", "ab"], ["a", "a"], ["a", "ab", "c"], ["ab", "a"]]
     for a in words:
         for b in words:
             yield {"op": "startswith", "a": a, "b": b}
@@ -703,7 +813,7 @@ def gen_cases(ctx):
     ctx.exhaustive = False   # the deeper scopes are sampled
     rng = ctx.rng
     quick = ctx.tier == "quick"
-    r = [_sub(rng) for _ in range(8)]
+    r = [_sub(rng) for _ in range(10)]
     gens = [
         _gen_small(ctx),
         _gen_select_special(ctx),
@@ -714,8 +824,8 @@ def gen_cases(ctx):
         _gen_groupby_overlap(ctx, r[3]),
         _gen_select_random(ctx, r[4], 1800 if quick else 100000),
         _gen_groupby_random(ctx, r[5], 700 if quick else 40000),
-        _gen_select_exhaustive(ctx),
-        _gen_groupby_exhaustive(ctx),
+        _gen_select_exhaustive(ctx, r[6]),
+        _gen_groupby_exhaustive(ctx, r[7]),
     ]
     return _round_robin(gens)
 
@@ -823,12 +933,21 @@ def run_impl(case):
             n = len(st.vals)
             try:
                 flt.fill_into(st, v)
-                filled.append(len(st.vals) == n + 1 and st.vals[-1] is v)
+                filled.append(len(st.vals) == n + 1 and st.vals[-1] == v)
             except Exception as e:  # noqa: BLE001
                 filled.append({"e": exc_name(e)})
+        # a flow filled into one element through fill_into, up to the first exception
+        st2, fill_stop = _Store(), None
+        for v in vals:
+            try:
+                flt.fill_into(st2, v)
+            except Exception as e:  # noqa: BLE001
+                fill_stop = exc_name(e)
+                break
+        fill_all = {"kept": [_unvalue(v) for v in st2.vals], "stop": fill_stop}
         # the same selector object applied to the same values once more: selectors keep no state
         r2 = [_out(sel, v) for v in vals]
-        return {"r": r, "kept": kept, "stop": stop, "filled": filled, "r2": r2}
+        return {"r": r, "kept": kept, "stop": stop, "filled": filled, "r2": r2, "fillAll": fill_all}
     if op == "filterseq":
         try:
             a, b = _build(case["a"]), _build(case["b"])
@@ -858,16 +977,26 @@ def run_impl(case):
         errors = []
         with warnings.catch_warnings():
             warnings.simplefilter("ignore")
+            given = []
             for i, c in enumerate(_contexts(case)):
+                val = i if c is None else (i, _mk(c, _order_of(case, i)))
+                given.append(val)
                 try:
-                    fill(i if c is None else (i, _mk(c)))
+                    fill(val)
                 except Exception as e:  # noqa: BLE001
                     errors.append({"at": i, "e": exc_name(e)})
             import json
             try:
                 groups = []
+                intact = True
                 for grp in gb.compute():
                     groups.append([v if isinstance(v, int) else v[0] for v in grp])
+                    for v in grp:
+                        # the groups hold the filled values, unchanged
+                        i = v if isinstance(v, int) else v[0]
+                        c = _contexts(case)[i] if isinstance(i, int) and 0 <= i < len(given) else None
+                        if not (v == given[i] if c is None else (isinstance(v, tuple) and _unmk(v[1]) == _unmk(c))):
+                            intact = False
                 keystrs = [k if isinstance(k, str) else repr(k) for k in gb.groups]
                 keys = []
                 for k in keystrs:
@@ -888,13 +1017,14 @@ def run_impl(case):
                 after = [list(g) for g in gb.compute()]
                 for i, c in enumerate(_contexts(case)):
                     try:
-                        fill(i if c is None else (i, _mk(c)))
+                        fill(i if c is None else (i, _mk(c, _order_of(case, i))))
                     except lena.core.LenaValueError:
                         pass
                 reuse = [[v if isinstance(v, int) else v[0] for v in grp] for grp in gb.compute()]
             except Exception as e:  # noqa: BLE001
                 reuse = {"e": exc_name(e)}
-        return {"groups": groups, "keys": keys, "keystrs": keystrs, "errors": errors, "after": after, "reuse": reuse}
+        return {"groups": groups, "keys": keys, "keystrs": keystrs, "errors": errors, "after": after, "reuse": reuse,
+                "intact": intact}
     if op == "oldgroupby":
         import lena.flow.group_by
         gbj = case["group_by"]
@@ -933,7 +1063,7 @@ def run_impl(case):
         return {"groups": canon_keys(groups), "keys": canon_keys(keys), "errors": errors, "after": after}
     if op == "contains":
         import lena.context
-        return {"r": _out(lena.context.contains, _mk(case["ctx"]), case["s"])}
+        return {"r": _out(lena.context.contains, _mk(case["ctx"], case.get("o", 0)), case["s"])}
     if op == "splitkey":
         from lena.context.include_exclude_tree import _split_key
         try:
@@ -1046,7 +1176,10 @@ def _compare(case, res, replies):
                 return e
         # fill_into = the selector applied to each value
         e = (_eq("fill_into", res["filled"], m["fill"]) or _eq("beforeError/firstError = filterRun", True, m["specRun_eq_model"])
-             or _eq("sem", res["r"], m["sem"]))
+             or _eq("sem", res["r"], m["sem"])
+             or _eq("fill_into into one element", [res["fillAll"]["kept"], res["fillAll"]["stop"]],
+                    [m["fillAll"]["kept"], m["fillAll"]["stop"]])
+             or _eq("fill_into_spec = fillIntoAll", True, m["fillAll_eq_spec"]))
         if e:
             return e
         if m["semFold"] is not None:
@@ -1097,6 +1230,8 @@ def _compare(case, res, replies):
         return e
     if m.get("parse") == "ok":
         always = ["keyC_eq_model", "keyFlip_eq_model", "groupsOf_eq_model", "wf", "agreeC_iff_key"]
+        if case.get("via") != "update":
+            always.append("skip_eq_model")
         if m["disjoint"]:
             always += ["keyP_eq_model", "keySel_eq_model", "agreeP_iff_key"]
         for k in always:
